@@ -57,6 +57,13 @@ def _items():
             '#[verifier::external_body]\n'
             'pub fn san2_%s(x: %s) -> (r: %s) ensures r == SPEC_SAN2_%s(x) { unimplemented!() }\n'
             % (T, t, t, t, t, t, T))
+        add('san3_%s' % t,
+            'pub fn san3_%s(x: %s) -> %s { x / (2 as %s) + (10 as %s) }\n' % (t, t, t, t, t),
+            'pub uninterp spec fn SPEC_SAN3_%s(x: %s) -> %s;\n'
+            '#[verifier::external_body]\n'
+            'pub fn san3_%s(x: %s) -> (r: %s) ensures r == SPEC_SAN3_%s(x) { unimplemented!() }\n'
+            % (T, t, t, t, t, t, T))
+        add('ONE_%s' % T, 'pub const ONE_%s: %s = 1 as %s;\n' % (T, t, t), 'pub const ONE_%s: %s = 1 as %s;\n' % (T, t, t))
         add('pred_%s' % t,
             'pub fn pred_%s(x: &%s) -> bool { %s }\n' % (t, t, pred_body),
             'pub uninterp spec fn SPEC_PRED_%s(x: %s) -> bool;\n'
